@@ -51,17 +51,14 @@ type firedTimer struct {
 // canonFired prints fired timers ordered by timestamp, ties by key bytes; a raw order that is not
 // non-decreasing in the timestamp is reported as such (it can never equal a model line).
 func canonFired(fs []firedTimer) string {
-	for i := 1; i < len(fs); i++ {
-		if fs[i].t.Before(fs[i-1].t) {
-			parts := make([]string, len(fs))
-			for j, f := range fs {
-				parts[j] = nsOfTime(f.t) + ":" + lib.Hex(f.key)
-			}
-			return "UNORDERED " + strings.Join(parts, ",")
-		}
-	}
 	if len(fs) == 0 {
 		return "-"
+	}
+	prefix := ""
+	for i := 1; i < len(fs); i++ {
+		if fs[i].t.Before(fs[i-1].t) {
+			prefix = "UNORDERED " // which timers, in canonical order, follows; ties between key groups have no fixed raw order
+		}
 	}
 	c := append([]firedTimer(nil), fs...)
 	sort.SliceStable(c, func(i, j int) bool {
@@ -74,7 +71,7 @@ func canonFired(fs []firedTimer) string {
 	for j, f := range c {
 		parts[j] = nsOfTime(f.t) + ":" + lib.Hex(f.key)
 	}
-	return strings.Join(parts, ",")
+	return prefix + strings.Join(parts, ",")
 }
 
 type c10Env struct {
@@ -88,11 +85,16 @@ type c10Env struct {
 	reg     *operator.TimerRegistry
 	handle  *recovery.CheckpointHandle
 	nextCID uint64
+	memTbl  uint64
 }
 
-func c10Open(fs storage.FileSystem, handles []recovery.CheckpointHandle) *dkv.DB {
-	// default (64 MB) memtables: nothing is flushed, so the DKV read defects tracked under C07 cannot interfere
-	return dkv.Open(dkv.DBOptions{FileSystem: fs, Logger: slog.New(slog.NewTextHandler(io.Discard, nil))}, handles)
+// c10Open opens the real DKV. memTable = 0 keeps the default 64 MB memtables (nothing is ever flushed); a few hundred
+// bytes make every handful of timer writes seal a memtable, so timers and their tombstones spread over memtables,
+// level-0 tables and compacted levels while caches reload and checkpoints are taken (flushes and compactions run as
+// the DKV's own background tasks).
+func c10Open(fs storage.FileSystem, handles []recovery.CheckpointHandle, memTable uint64) *dkv.DB {
+	return dkv.Open(dkv.DBOptions{FileSystem: fs, MemTableSize: memTable, TargetFileSize: 4 * memTable,
+		Logger: slog.New(slog.NewTextHandler(io.Discard, nil))}, handles)
 }
 
 func newC10Env(hdr []string) *c10Env {
@@ -105,7 +107,10 @@ func newC10Env(hdr []string) *c10Env {
 	for i := 0; i < runners; i++ {
 		e.ids = append(e.ids, fmt.Sprintf("sr%d", i))
 	}
-	e.db = c10Open(e.fs, nil)
+	if len(hdr) > 7 {
+		e.memTbl = uint64(at(7))
+	}
+	e.db = c10Open(e.fs, nil, e.memTbl)
 	e.fresh()
 	return e
 }
@@ -181,7 +186,7 @@ func (e *c10Env) step(op string) string {
 			return "nockpt"
 		}
 		// the old instance is abandoned (crash); a new DB is opened from the checkpoint on the same file system
-		e.db = c10Open(e.fs, []recovery.CheckpointHandle{*e.handle})
+		e.db = c10Open(e.fs, []recovery.CheckpointHandle{*e.handle}, e.memTbl)
 		e.fresh()
 		return "ok"
 	}
@@ -207,9 +212,10 @@ func propC10() *lib.Prop {
 		ID:   "C10",
 		Corr: "Model/Timers.lean (Cache, KGPQ, Store, Registry) ↔ operator.TimerRegistry/TimerStore/KeyGroupPriorityQueue, ds.SortedCache, binu time codec over a real dkv.DB",
 		Rule: "cases = sequences of SetTimer/AdvanceWatermark/GetEarliest/Put/checkpoint/restore on the real TimerRegistry over a real in-memory DKV " +
-			"(default 64 MB memtables so that nothing is flushed and the DKV read defects tracked under C07 cannot interfere); fired timers are compared per advance " +
+			"(two thirds of the cases with memtables of 120-900 bytes, so timers and their tombstones live in memtables, level-0 tables and compacted levels while caches reload and checkpoints are taken; the rest with the default 64 MB); fired timers are compared per advance " +
 			"(canonical order: timestamp, ties by key; a raw order that is not non-decreasing is a mismatch); non-trivial = per-key-group cache of at most 3 entries (or 0 bytes) " +
 			"with at least 6 registrations and an advance that fired at least 2 timers, or a restore followed by a firing; " +
+			"every 6th case also registers timers before 1970 (open finding D51: KNOWN-FINDING lines come from these and from the fixed witness only); " +
 			"every 8th case (and two fixed ones) runs the real Operator (HandleEvent: keyed events whose handler response registers timers, watermark messages of 1-4 runners, SourceComplete of a runner, HandleDeploy again) and compares every ProcessEventBatchRequest (TimerExpired events in order), non-trivial there = a TimerExpired reached the handler",
 		NumCases: func(tier string) int {
 			if tier == "thorough" {
@@ -220,7 +226,14 @@ func propC10() *lib.Prop {
 		Fixed: func(tier string) []lib.Case {
 			// operator mode (header "M C10 op ..."): the timers the real Operator hands to the handler, over histories with
 			// several runners, source completions and redeployments (shared with C11's operator mode)
-			return append([]lib.Case{d11, d11b, d10, zero}, c11CompletionCases("M C10 op")...)
+			// D51 (open): a timer before 1970 sorts after every later timer (keys carry uint64(UnixNano))
+			d51 := lib.Case{Header: "M C10 1 0 1 1048576 1", Tags: []string{"fixed", "preepoch"},
+				Ops: []string{"set 6b -5", "set 6b 4102444800000000000", "earliest", "adv 0 10000000000", "dbcount", "adv 0 4102444800000000001", "dbcount"}}
+			// tiny memtables (150 B ~ 3 timer keys with overhead): the fired timers' deletes are in memory over flushed
+			// puts when the checkpoint is taken; after the restore they must not fire again, the pending ones must
+			sst := lib.Case{Header: "M C10 1 0 1 26 1 150", Tags: []string{"fixed", "smallcache", "sst"},
+				Ops: []string{"set 6b 1", "set 6b 2", "set 6b 3", "set 6b 4", "set 6b 5", "set 6b 6", "set 6b 7", "set 6b 8", "adv 0 3", "ckpt", "adv 0 5", "restore", "dbcount", "adv 0 4", "adv 0 100", "dbcount"}}
+			return append([]lib.Case{d11, d11b, d10, zero, d51, sst}, c11CompletionCases("M C10 op")...)
 		},
 		Gen: func(r *lib.Rng, tier string, i int) lib.Case {
 			if i%8 == 7 {
@@ -238,7 +251,11 @@ func propC10() *lib.Prop {
 			perPart := lib.Pick(r, []int{0, 1, 13, 14, 26, 27, 30, 40, 45, 60, 70, 1 << 20})
 			cache := perPart*size + r.Intn(size)
 			runners := r.Range(1, 3)
-			c := lib.Case{Header: fmt.Sprintf("M C10 %d %d %d %d %d", kgc, start, stop, cache, runners)}
+			memTbl := lib.Pick(r, []int{0, 0, 120, 200, 400, 900})
+			c := lib.Case{Header: fmt.Sprintf("M C10 %d %d %d %d %d %d", kgc, start, stop, cache, runners, memTbl)}
+			if memTbl > 0 {
+				c.Tags = append(c.Tags, "sst")
+			}
 			if perPart <= 45 {
 				c.Tags = append(c.Tags, "smallcache")
 			}
@@ -246,12 +263,25 @@ func propC10() *lib.Prop {
 			grid := r.Range(5, 40)
 			scale := lib.Pick(r, []int64{1, 1, 1000, 1_000_000_000, 1 << 40})
 			wms := make([]int64, runners)
+			// every 6th case also registers timers before 1970 (finding D51: the code fires them late; the driver labels
+			// exactly these deviations, and only while such a timer is stored or pending)
+			preEpoch := i%6 == 5
+			if preEpoch {
+				c.Tags = append(c.Tags, "preepoch")
+			}
+			ts := func() int64 {
+				t := int64(r.Intn(grid)) * scale
+				if preEpoch && r.Chance(1, 4) {
+					t = -int64(r.Range(1, grid)) * scale
+				}
+				return t
+			}
 			haveCkpt, restored := false, false
 			sets := 0
 			for j := 0; j < n; j++ {
 				switch x := r.Intn(100); {
 				case x < 55:
-					t := int64(r.Intn(grid)) * scale
+					t := ts()
 					key := c10Key(r, pool)
 					reps := 1
 					if r.Chance(1, 8) {
@@ -274,7 +304,7 @@ func propC10() *lib.Prop {
 				case x < 89:
 					c.Ops = append(c.Ops, "dbcount")
 				case x < 93:
-					c.Ops = append(c.Ops, fmt.Sprintf("put %s %d", c10Key(r, pool), int64(r.Intn(grid))*scale))
+					c.Ops = append(c.Ops, fmt.Sprintf("put %s %d", c10Key(r, pool), ts()))
 				case x < 97:
 					c.Ops = append(c.Ops, "ckpt")
 					haveCkpt = true
@@ -309,6 +339,13 @@ func propC10() *lib.Prop {
 			out := make([]string, 0, len(c.Ops))
 			for _, op := range c.Ops {
 				out = append(out, e.step(op))
+				if e.memTbl > 0 {
+					// let the DKV's background flush/compaction finish between operations: reads concurrent with an
+					// in-flight flush are C07's subject (gated there); here the layout (memtables + tables + tombstones) matters
+					if err := e.db.WaitOnTasks(); err != nil {
+						out[len(out)-1] += " dkv-task-error"
+					}
+				}
 			}
 			return out
 		},
